@@ -66,12 +66,12 @@ CONFIG = {
     "C10": dict(shards=16, timeout=(600, 3600)),
     "C11": dict(shards=8, timeout=(900, 5400), race=True, cli=True),
     "C12": dict(shards=16, timeout=(600, 3600)),
-    "C13": dict(shards=16, timeout=(600, 3600)),
+    "C13": dict(shards=16, timeout=(900, 7200)),
     "C14": dict(shards=16, timeout=(900, 5400), cli=True),
     "C15": dict(shards=16, timeout=(900, 5400), cli=True, fuzz=["FuzzQuery"]),
-    "C16": dict(shards=16, timeout=(600, 3600)),
-    "C17": dict(shards=16, timeout=(600, 3600)),
-    "C18": dict(shards=16, timeout=(600, 3600)),
+    "C16": dict(shards=16, timeout=(900, 5400)),
+    "C17": dict(shards=16, timeout=(900, 5400)),
+    "C18": dict(shards=16, timeout=(900, 7200)),
     "C19": dict(shards=8, timeout=(900, 5400), race=True),
     "C20": dict(shards=16, timeout=(600, 3600), cli=True),
 }
